@@ -104,22 +104,8 @@ func (s *RefreshableFileDataSource) Initialize() error {
 					}
 
 					// try to watch sourceFile
-					_ = s.watcher.Remove(s.sourceFilePath)
-					retryCount := 0
-					for {
-						if retryCount > 5 {
-							logging.Error(errors.New("retry failed"), "Fail to retry watch", "sourceFilePath", s.sourceFilePath)
-							s.Close()
-							return
-						}
-						e := s.watcher.Add(s.sourceFilePath)
-						if e == nil {
-							s.watched, _ = os.Stat(s.sourceFilePath)
-							break
-						}
-						retryCount++
-						logging.Error(e, "Failed to add to watcher", "sourceFilePath", s.sourceFilePath)
-						util.Sleep(time.Second)
+					if !s.watchAgain() {
+						return
 					}
 				}
 				src, srcErr := os.Stat(s.sourceFilePath)
@@ -133,11 +119,9 @@ func (s *RefreshableFileDataSource) Initialize() error {
 					// only loses a link, and a change of attributes is all its watch announces. The watch is put
 					// on the file that is there, before it is read below. (Only then: dropping and setting the
 					// watch on every attribute change lost it for good when the file was unreadable for a moment.)
-					_ = s.watcher.Remove(s.sourceFilePath)
-					if e := s.watcher.Add(s.sourceFilePath); e != nil {
-						logging.Error(e, "Failed to add to watcher", "sourceFilePath", s.sourceFilePath)
-					} else {
-						s.watched = src
+					// (with the retries of a renamed source: the file that has come may be unreadable for a moment)
+					if !s.watchAgain() {
+						return
 					}
 				}
 				if ev.Op&fsnotify.Remove == fsnotify.Remove && srcErr == nil {
@@ -174,6 +158,28 @@ func (s *RefreshableFileDataSource) Initialize() error {
 		}
 	})
 	return nil
+}
+
+// watchAgain puts the watch on the file that carries the watched name now, trying for some seconds; when that
+// fails it closes the datasource and returns false. Called by the watcher goroutine.
+func (s *RefreshableFileDataSource) watchAgain() bool {
+	_ = s.watcher.Remove(s.sourceFilePath)
+	retryCount := 0
+	for {
+		if retryCount > 5 {
+			logging.Error(errors.New("retry failed"), "Fail to retry watch", "sourceFilePath", s.sourceFilePath)
+			s.Close()
+			return false
+		}
+		e := s.watcher.Add(s.sourceFilePath)
+		if e == nil {
+			s.watched, _ = os.Stat(s.sourceFilePath)
+			return true
+		}
+		retryCount++
+		logging.Error(e, "Failed to add to watcher", "sourceFilePath", s.sourceFilePath)
+		util.Sleep(time.Second)
+	}
 }
 
 func (s *RefreshableFileDataSource) doReadAndUpdate() (err error) {
